@@ -31,7 +31,9 @@ CLAIMED = {
               "rendering of a well-formed lexeme list with at most one tilde whose tokens (intercept inserted as the "
               "scanner does) the grammar derives, and returns THE tree of the grammar; every other string is refused "
               "with a scan or a parse error (exact conditions and error codes, trichotomy); 22 precedence / "
-              "associativity laws for all identifier operands." + COMMON),
+              "associativity laws for all identifier operands; the COMPLETE operator table (C01_pairs.v): every ordered "
+              "pair of the thirteen binary operators, all identifier operands, any spacing, parsed to the tree a "
+              "parser-independent precedence table with left associativity prescribes." + COMMON),
         design_ref="DESIGN.md section 5 C01, section 10",
         technique="Coq proof: scanner characterised by renderings, parser sound+complete w.r.t. precedence grammar; translator tie; differential correspondence"),
     "C02": dict(
